@@ -52,17 +52,17 @@ def expected_params(case, w):
 
 class Histories(Suite):
     name = "histories"
+    parallel = True
 
     def cases(self, ctx, budget):
         out = []
         if budget == "quick":
-            out += list(G.exhaustive(ALPHA, 2, [1024], IDS))
-            out += list(G.exhaustive(ALPHA, 3, [1024], IDS, ties=("events",)))[::3]
-            n = 2500
+            out += list(G.exhaustive(ALPHA, 3, [1024], IDS))
+            n = 8000
         else:
             out += list(G.exhaustive(ALPHA, 3, [1024, 1100], IDS))
-            out += list(G.exhaustive(ALPHA, 4, [1024], IDS, ties=("events",)))[::5]
-            n = 60000 if budget == "thorough" else 30000
+            out += list(G.exhaustive(ALPHA, 4, [1024], IDS))
+            n = 300000 if budget == "thorough" else 60000
         rng = ctx.sub_rng("c01", budget)
         alpha = ALPHA + ["Rj", "Ed", "F", "Oe"]
         for _ in range(n):
@@ -73,17 +73,12 @@ class Histories(Suite):
     def impl(self, case):
         return H.run_case(case)
 
-    def model_line(self, case):
-        return None  # needs the observation (generated id / token); see impl_batch
-
     def impl_batch(self, cases):
         obs = [H.run_case(c) for c in cases]
-        self._last = {id(c): o for c, o in zip(cases, obs)}
         return obs
 
     # the driver line depends on what the implementation generated (uuid, progress token)
-    def model_line(self, case):  # noqa: F811
-        o = self._last.get(id(case))
+    def model_line(self, case, o=None):
         if o is None or o.get("harness_errors"):
             return None
         return H.model_line(case, o)
